@@ -251,6 +251,9 @@ func must(err error) {
 
 // infra reports an infrastructure problem: never a verdict about the code.
 func infra(format string, a ...any) {
+	if os.Getenv("VERIF_DEBUG") != "" {
+		panic(fmt.Sprintf("INFRA: "+format, a...)) // with the stack of the call, for whoever maintains the driver
+	}
 	fmt.Fprintf(os.Stderr, "INFRA: "+format+"\n", a...)
 	os.Exit(2)
 }
